@@ -40,6 +40,7 @@ def run(run):
             if good:
                 run.sample(fm94.brief(good[len(good) // 2]), limit=4)
         run.notes['behaviours_ending_in_error_not_replayed'] = nerr
+        fm94.cross_version_pass(run, wd, ('decode',), seed())
         corpus.validate(run, wd, 'decode')
     finally:
         rm_workdir(wd)
